@@ -308,12 +308,6 @@ def value_of(pl):
         return None
 
 
-def has_leak(j, right=False):
-    """python mirror of Fmt.leak on the JSON AST (only used to label expected parse differences)"""
-    fs = O.features({"x": j} if not right else {"Binary": {"left": {"Ident": ["z"]}, "op": "Add", "right": j}})
-    return "range-pow-leak" in fs
-
-
 def run(ck, info, pr):
     rng = ck.rng
     if "error" in info:
@@ -382,13 +376,13 @@ def run(ck, info, pr):
         case = {"src": "let v = " + s + "\n", "real_fmt": real, "model_fmt": mt}
         feats = O.features(O.strip(v))
         one_line = "\n" not in real
-        if one_line and "named-args-order" not in feats:
+        if one_line:
             ck.stat(stream, "exact-text-compared")
             if mt != real:
                 ck.disagreement("formatter model text differs from pl_to_prql", case, None)
                 continue
         else:
-            ck.stat(stream, "wrapped-or-hash-ordered:ast-compared")
+            ck.stat(stream, "wrapped:ast-compared")
             b = back[k]
             real_ok = "pl2" in answers_by_src.get(s, {}) and O.canon(O.strip(answers_by_src[s]["pl2"])) == O.canon(O.strip(answers_by_src[s]["pl"]))
             model_ok = isinstance(b, dict) and "pl" in b and value_of(b["pl"]) is not None and len(b["pl"]["stmts"]) == 1 and O.canon(O.strip(value_of(b["pl"]))) == O.canon(O.strip(v))
@@ -398,12 +392,10 @@ def run(ck, info, pr):
         # the model's own round trip on this tree (a theorem; here it also exercises the parser model)
         parsed = val[1]
         ok_rt = isinstance(parsed, tuple) and parsed[0] == "Some" and unlist(parsed[1]) == unlist(t)
-        leak = "range-pow-leak" in O.features(O.strip(v))
         ck.stat(stream, "model-roundtrip:" + ("ok" if ok_rt else "differs"))
-        if not ok_rt and not leak:
-            # legitimate only for the binary-position leak; anything else contradicts fmt_expr_roundtrip_partial
-            real_ok = True
-            ck.disagreement("model parse (model fmt e) <> e outside the known leak class", dict(case, model_parse=str(parsed)[:300]), None)
+        if not ok_rt:
+            # contradicts the theorem fmt_expr_roundtrip (possible only when the tables no longer pass `compat`)
+            ck.disagreement("model parse (model fmt e) <> e", dict(case, model_parse=str(parsed)[:300]), None)
         if len(ck.coverage["samples"]) < 8 and k % 211 == 0:
             ck.sample({"stream": stream, "src": s, "model_fmt": mt, "real_fmt": real, "model_roundtrip": ok_rt})
 
@@ -519,10 +511,8 @@ def run_literals(ck, info):
             ck.disagreement("string lexer model differs from the lexer on the formatter's output", dict(case, model_back=model_back, real_back=real_back, real_lex=str(rl)[:200]), None)
             continue
         if real_back != s:
-            cls = "C14-string-quote-edge" if O.string_quote_edge(s) else None
-            if not edge:
-                cls = None
-            ck.disagreement("a printed string does not lex back to itself", dict(case, real_back=real_back), (lambda c, cls=cls: cls))
+            # fmt_string_roundtrip holds for every string since commit 5e36fe1: nothing explains a loss
+            ck.disagreement("a printed string does not lex back to itself", dict(case, real_back=real_back), None)
     # raw strings
     raws = ["", "a", "a\\b", "{x}", "#", "é"]
     rr = harness("c14display", [{"kind": "raw", "s": s} for s in raws])
@@ -626,7 +616,7 @@ def run_literals(ck, info):
     # the word lexer model (ASCII classes suffice: non-ASCII parts are printed in backticks) vs the real lexer,
     # on what the two printers emit, followed by a blank
     hdr = HEADER + "From PV Require Import Proofs.FmtLitProofs Proofs.FmtInstProofs.\n"
-    wv = coq_eval(hdr, ["(lex_word ascii_alpha_f ascii_alnum_f I_prql (display_ident_part I_prql %s ++ [32]), lex_word ascii_alpha_f ascii_alnum_f I_prql (write_ident_part I_prql %s ++ [32]), display_known I_prql %s, write_known I_prql %s)" % ((coq(codes(p)),) * 4) for p in parts])
+    wv = coq_eval(hdr, ["(lex_word ascii_alpha_f ascii_alnum_f I_prql (display_ident_part I_prql %s ++ [32]), lex_word ascii_alpha_f ascii_alnum_f I_prql (write_ident_part I_prql %s ++ [32]), false, write_known I_prql %s)" % ((coq(codes(p)),) * 3) for p in parts])
     texts = []
     for p, v in zip(parts, vi):
         texts.append("".join(chr(c) for c in v[0]) + " ")
@@ -666,5 +656,5 @@ def run_literals(ck, info):
             if not back_ok:
                 cls = None
                 if known:
-                    cls = "C14-ident-dollar" if "$" in p else ("F11-ident-keyword" if p != "*" else "F11-ident-keyword")
+                    cls = "C14-ident-star-bare"
                 ck.disagreement("a printed identifier does not lex back to itself", {"part": p, "printer": which, "text": texts[2 * i + j], "real": str(rl[2 * i + j])[:200]}, (lambda c, cls=cls: cls))
